@@ -24,6 +24,7 @@ def all_cases(tier):
         ("Gate", S.c_gate), ("Multiplexer(3)", S.c_mux, 3), ("Multiplexer(2)", S.c_mux, 2), ("Demultiplexer(3)", S.c_demux, 3), ("Cast", S.c_cast),
         ("Gearbox(10->4,msb)", S.c_gearbox, 10, 4, True), ("Gearbox(10->4,lsb)", S.c_gearbox, 10, 4, False),
         ("Gearbox(2->10,lsb)", S.c_gearbox, 2, 10, False), ("Gearbox(20->32,msb)", S.c_gearbox, 20, 32, True), ("Gearbox(10->2,msb)", S.c_gearbox, 10, 2, True),
+        ("Gearbox(4->8,msb)", S.c_gearbox, 4, 8, True), ("Gearbox(8->4,lsb)", S.c_gearbox, 8, 4, False),   # power-of-two storage: level wraps if one word too many is accepted
         ("Delay(2)", S.c_delay, 2), ("Delay(3)", S.c_delay, 3),
         ("Pipeline(buf+buf)", S.c_pipeline, "buf+buf"), ("Pipeline(fifo+buf)", S.c_pipeline, "fifo+buf"), ("Pipeline(buf+fifo+buf)", S.c_pipeline, "buf+fifo+buf"),
         ("BufferizeEndpoints", S.c_bufferize),
@@ -32,7 +33,7 @@ def all_cases(tier):
         cs += [("SyncFIFO(8)", S.c_syncfifo, 8), ("SyncFIFO(4,buffered)", S.c_syncfifo, 4, True),
                ("_DownConverter(32->8)", S.c_down, 4, 8, False), ("_UpConverter(8->32)", S.c_up, 4, 8, False), ("_UpConverter(8->64,rev)", S.c_up, 8, 8, True),
                ("Multiplexer(4)", S.c_mux, 4), ("Demultiplexer(2)", S.c_demux, 2), ("Demultiplexer(4)", S.c_demux, 4),
-               ("Gearbox(4->10,lsb)", S.c_gearbox, 4, 10, False), ("Gearbox(32->20,msb)", S.c_gearbox, 32, 20, True),
+               ("Gearbox(4->10,lsb)", S.c_gearbox, 4, 10, False), ("Gearbox(32->20,msb)", S.c_gearbox, 32, 20, True), ("Gearbox(8->16,lsb)", S.c_gearbox, 8, 16, False), ("Gearbox(16->8,msb)", S.c_gearbox, 16, 8, True), ("Gearbox(8->32,msb)", S.c_gearbox, 8, 32, True),
                ("Unpack(4)", S.c_unpack, 4, False, True), ("Pack(4,param)", S.c_pack, 4, False, True), ("Delay(4)", S.c_delay, 4)]
     return cs
 
